@@ -57,11 +57,13 @@ def op_token(o):
     if o[0] == 'e':
         return 'e:%d' % o[1]
     if o[0] == 'x':
-        return 'x' 
+        return 'x'
+    if o[0] == 'q':
+        return 'q' 
     raise ValueError(o)
 
 def driver_text(sc, qcap=16):
-    out = ['S %d %d' % (sc['buf'], sc.get('qcap', qcap))]
+    out = ['S %d %d %d' % (sc['buf'], sc.get('qcap', qcap), sc.get('heap', 96))]
     for pat, tag in sc['table']:
         out.append('T %d %s' % (tag, bytes(pat).decode('latin1')))
     for tag, ret, stop, ops in sc['scripts']:
